@@ -660,3 +660,73 @@ func ZZ_C07_userFailOnAReusedReplicaSet() {
 		final.Spec.Template.Spec.Containers[0].Image == "agent:A" && final.Spec.Template.Labels["version"] == "A")
 	nondet.Observe("state", string(final.Status.State))
 }
+
+// ZZ_C19_pauseThenUnpauseThroughBothControllers: "pause leads to state Canary Paused, unpause back to Canary"
+// with both controllers running between and after the commands: the replica-set controller mirrors the
+// user's pause into the canary replica set's own Canary-Paused condition, which the ExtendedDaemonSet
+// controller reads — `canary unpause` has to undo that too, whether automatic pausing is enabled or the
+// user switched it off (autoPause.enabled: false), and whether the canary pod exists or still has to be
+// created.  One round = sync of the canary replica set, then ExtendedDaemonSet reconcile.
+func ZZ_C19_pauseThenUnpauseThroughBothControllers() {
+	c, ds := zzScenario("canary")
+	if nondet.Bool("autoPauseDisabled") {
+		off := false
+		ds.Spec.Strategy.Canary.AutoPause.Enabled = &off
+	}
+	rsB := c.ERS[1]
+	podThere := nondet.Bool("canaryPodExists")
+	mk := func(name, node, rs, hash string) *corev1.Pod {
+		p := &corev1.Pod{ObjectMeta: metav1.ObjectMeta{Name: name, Namespace: "ns", CreationTimestamp: metav1.NewTime(nondet.Base().Add(-10 * time.Minute)),
+			Labels:      map[string]string{"app": "agent", v1alpha1.ExtendedDaemonSetNameLabelKey: "foo", v1alpha1.ExtendedDaemonSetReplicaSetNameLabelKey: rs},
+			Annotations: map[string]string{v1alpha1.MD5ExtendedDaemonSetAnnotationKey: hash}},
+			Spec:   corev1.PodSpec{NodeName: node},
+			Status: corev1.PodStatus{Phase: corev1.PodRunning, Conditions: []corev1.PodCondition{{Type: corev1.PodReady, Status: corev1.ConditionTrue}}}}
+		st := metav1.NewTime(nondet.Base().Add(-10 * time.Minute))
+		p.Status.StartTime = &st
+		p.Status.ContainerStatuses = []corev1.ContainerStatus{{Name: "agent"}}
+		return p
+	}
+	if podThere {
+		c.Pods = append(c.Pods, mk("foo-b-x", "node0", "foo-b", rsB.Spec.TemplateGeneration))
+	}
+	c.Pods = append(c.Pods, mk("foo-a-y", "node1", "foo-a", c.ERS[0].Spec.TemplateGeneration))
+	rsRec, _ := erscontroller.NewReconciler(erscontroller.ReconcilerOptions{}, c, c.Scheme(), logr.Logger{}, &fakeapi.Recorder{})
+	round := func() bool {
+		_, rsErr := rsRec.Reconcile(context.TODO(), reconcile.Request{NamespacedName: types.NamespacedName{Namespace: "ns", Name: "foo-b"}})
+		edsErr := zzReconcileEDS(c)
+		// one minute passes (the replica-set controller does not sync a replica set twice within its reconcile frequency)
+		for _, rs := range c.ERS {
+			for i := range rs.Status.Conditions {
+				cd := &rs.Status.Conditions[i]
+				cd.LastUpdateTime = metav1.NewTime(cd.LastUpdateTime.Add(-time.Minute))
+				cd.LastTransitionTime = metav1.NewTime(cd.LastTransitionTime.Add(-time.Minute))
+			}
+		}
+		return rsErr == nil && edsErr == nil
+	}
+	rsPaused := func() bool {
+		for _, cd := range c.ERS[1].Status.Conditions {
+			if cd.Type == v1alpha1.ConditionTypeCanaryPaused && cd.Status == corev1.ConditionTrue {
+				return true
+			}
+		}
+		return false
+	}
+	nondet.Assert("C19.both.pause-accepted", zzRunCanaryCmd(c, "pause") == nil)
+	created0 := c.Count("create", "Pod")
+	nondet.Assert("C19.both.round-ok", round())
+	nondet.Assert("C19.both.paused-after-pause", zzStored(c).Status.State == v1alpha1.ExtendedDaemonSetStatusStateCanaryPaused && zzStored(c).Status.ActiveReplicaSet == "foo-a")
+	nondet.Assert("C19.both.paused-canary-creates-no-pod", c.Count("create", "Pod") == created0)
+	nondet.Assert("C19.both.unpause-accepted", zzRunCanaryCmd(c, "unpause") == nil)
+	for i := 0; i < 2; i++ {
+		nondet.Assert("C19.both.round-ok", round())
+	}
+	final := zzStored(c)
+	nondet.Observe("state", string(final.Status.State))
+	nondet.Assert("C19.both.back-to-canary-after-unpause", final.Status.State == v1alpha1.ExtendedDaemonSetStatusStateCanary && final.Status.ActiveReplicaSet == "foo-a" && final.Status.Canary != nil)
+	nondet.Assert("C19.both.replica-set-no-longer-paused", !rsPaused())
+	if !podThere {
+		nondet.Assert("C19.both.canary-pod-created-after-unpause", c.Count("create", "Pod") == created0+1)
+	}
+	nondet.Reach("C19.both.auto-pause-off-with-pod", podThere && !*ds.Spec.Strategy.Canary.AutoPause.Enabled)
+}
